@@ -55,6 +55,12 @@ claims = {
    text="Stateless model checking of the implementation: ~480 (quick) / ~1000 (thorough) scenarios - every unordered pair of commands (incl. self pairs) within the string, list, hash, set and generic families on colliding keys, every family command against multi-key generic commands (DEL a b, RENAME, FLUSHDB ...), and 3-connection / 2-commands-per-connection scenarios for MSET/MGET, RENAME, LMOVE, SMOVE, COPY, the STORE forms, BITOP, SELECT, plus MULTI/EXEC transactions against observers and writers - each explored over ALL thread schedules with at most 2 (quick) / 3 (thorough) preemptions, every lock, unlock-to-lock hand-over, CAS on the MULTI lock owner and atomic counter being a scheduling point. Oracle: linearizability by brute force - replies and final state must equal those of some total order (computed on the implementation itself, run sequentially) that respects each connection's order and the real-time precedence of the explored execution.",
    note="Trusted: the cooperative scheduler shim (exactly one thread runs; mutex unlock is merged with the preceding step, which is sound because an unlock commutes with every step other threads can take), and the implementation's sequential behaviour as reference (checked against Redis semantics by C02-C07). Not covered: more preemptions than the bound, more than 3 connections, data races on plain memory (C16).",
    tech="stateless model checking: exhaustive schedule enumeration with iterative preemption bounding on the real code, linearizability oracle"),
+ 'C11': dict(engine='explore', cat='model_checking', ref='DESIGN.md §3 C11',
+   text="Stateless model checking of the block/wake protocol on the real implementation: 31 scenarios (all five blocking commands; 1-3 waiters that are known to be parked before the next phase starts; pushes of 1-3 elements from one or two connections; competing LPOP / DEL / LTRIM / RENAME-onto / SORT STORE-onto / FLUSHDB / EXEC(RPUSH,LPOP,RPUSH); waiters on two keys; BLMOVE chains; waiters that leave the queue by timeout, CLIENT UNBLOCK or through another key) explored over all thread schedules with at most 3 (quick) / 4 (thorough) preemptions or deviations (timer firing early, non-default select case), every step of try -> register -> try -> capture -> select -> release -> retry being a scheduling point. Oracles at quiescence: linearizability against the implementation's sequential runs (conservation, exactly-once, end order), no waiter parked while one of its lists is non-empty, longest-blocked-first wake order, no livelock.",
+   note='Trusted: the cooperative scheduler shim and the instrumenter that routes every lock, atomic, channel operation, select, sleep and timer of the emulator through it (build-time overlay, no hand-placed hooks); virtual time only moves when nothing else can run or when the explorer chooses to fire a timer. Not covered: more preemptions/deviations than the bound, more connections than the scenarios have.', tech="stateless model checking: exhaustive schedule enumeration with preemption/deviation bounding on the real code"),
+ 'C12': dict(engine='explore', cat='model_checking', ref='DESIGN.md §3 C12',
+   text="Stateless model checking on the real implementation with a virtual clock: (a) every blocking command with timeouts 0.001, 0.5, 1, 1e6, 1e10 s and 0 - completion exactly at t in virtual time, never for 0; (b) CLIENT UNBLOCK [TIMEOUT|ERROR] released at every scheduling point of the target's block protocol, alone and racing a push: answer 1 => the target ends with null / UNBLOCKED and took no element, answer 0 => the target is not aborted, other clients unaffected; (c) CLIENT KILL of a blocked client, later pushes go to live consumers; (d) repeated block / unblock / timeout / push cycles on one connection with fully determined replies; (e) all five blocking commands inside MULTI return at once. All schedules with at most 3 / 4 preemptions or deviations.",
+   note='Trusted: the cooperative scheduler shim and the instrumenter that routes every lock, atomic, channel operation, select, sleep and timer of the emulator through it (build-time overlay, no hand-placed hooks); virtual time only moves when nothing else can run or when the explorer chooses to fire a timer. Not covered: more preemptions/deviations than the bound, more connections than the scenarios have. Closing the peer socket of a blocked connection is covered by the socket-level scenarios of C20.', tech="stateless model checking: exhaustive schedule enumeration with preemption/deviation bounding, virtual time"),
 }
 pending_reason = "check not built yet (work in progress in this session; see DESIGN.md build order)"
 
@@ -84,7 +90,7 @@ manifest = {
    "add_only": True
  },
  "engines": [
-   {"name": "explore", "path": "checks/mc/explore.go", "serves_properties": ["C08", "C09"], "kind_free_text": "E2: controlled scheduler + DFS by prefix replay, iterative preemption bounding, 16 worker processes"},
+   {"name": "explore", "path": "checks/mc/explore.go", "serves_properties": ["C08", "C09", "C11", "C12"], "kind_free_text": "E2: controlled scheduler + DFS by prefix replay, iterative preemption bounding, 16 worker processes"},
    {"name": "c15", "path": "checks/mc/c15.go", "serves_properties": ["C15"], "kind_free_text": "RESP2/RESP3 differential enumeration + HELLO state space"},
    {"name": "scan", "path": "checks/mc/scan.go", "serves_properties": ["C17"], "kind_free_text": "history enumeration for the SCAN family"},
    {"name": "seq", "path": "checks/mc/seq.go", "serves_properties": [i for i in ids if claims.get(i,{}).get('engine')=='seq'], "kind_free_text": "E1: explicit-state BFS over model states, transitions replayed on the implementation (16 worker processes)"},
